@@ -330,6 +330,7 @@ runs['gtid-iv-contains'] = {'func': 'interval.contains'}
 runs['gtid-56-containsgtid'] = {'func': 'Mysql56GTIDSet.ContainsGTID', 'ifacetag': 'replication.GTID=replication.Mysql56GTID'}
 runs['gtid-56-add'] = {'func': 'Mysql56GTIDSet.AddGTID', 'ifacetag': 'replication.GTID=replication.Mysql56GTID'}
 runs['gtid-56-contains'] = {'func': 'Mysql56GTIDSet.Contains', 'ifacetag': 'replication.GTIDSet=replication.Mysql56GTIDSet'}
+runs['gtid-56-equal'] = {'func': 'Mysql56GTIDSet.Equal', 'ifacetag': 'replication.GTIDSet=replication.Mysql56GTIDSet'}
 runs['gtid-sidblock-read'] = {'func': 'NewMysql56GTIDSetFromSIDBlock', 'timeout': 40}
 runs['gtid-prev56'] = {'func': 'mysql56BinlogEvent.PreviousGTIDs'}
 runs['gtid-maria-contains'] = {'func': 'MariadbGTIDSet.ContainsGTID', 'ifacetag': 'replication.GTID=replication.MariadbGTID'}
@@ -339,11 +340,11 @@ runs['gtid-maria-add'] = {'func': 'MariadbGTIDSet.AddGTID', 'ifacetag': 'replica
 
 props['C18'] = {
     'level': 'other',
-    'explanation': "Partial, by contract on the real code. Decided for all inputs: membership (Mysql56GTIDSet.ContainsGTID) agrees with the set-of-pairs model — for every set whose interval list for the GTID's server id is in canonical form (non-empty intervals, pairwise ordered and disjoint) and every Mysql56GTID, the result is true exactly if some interval of that server id covers the sequence number (loop invariant over the interval list of unbounded length; the map is a symbolic total function from 16-byte ids to slices); interval.contains is interval inclusion. AddGTID never alters the set it was added to: no execution stores into memory that existed before the call (frame obligation at every store and every in-place append, map iteration modelled as 'an arbitrary present key not produced before'), and no index can go out of range. Contains (superset test), one direction: the answer false always comes with a witness — an interval of other (for some server id present in other) that no interval of set for the same server id contains — for canonical sets, three nested loops by invariant (monotone scan index: every interval of set that the scan has passed ends before the end of the interval of other handled last). Not decided: the other direction of Contains (true => every interval of other is covered: the invariant over the server ids already produced and its preservation do not discharge in time; drafts are kept in the contract file under names the generator ignores), Equal / String, and that AddGTID's result is the union in canonical form (functional contracts over Go map iteration with nested interval scans were not written; no bounded stand-in was built).",
-    'claim': "Membership test of MySQL 5.6 GTID sets agrees with the mathematical model for all canonical sets; AddGTID never writes the receiver's memory (frame) and is panic-free; a false answer of Contains always has an uncovered interval as witness; the true direction of Contains, Equal and AddGTID's result are not covered.",
+    'explanation': "Partial, by contract on the real code. Decided for all inputs: membership (Mysql56GTIDSet.ContainsGTID) agrees with the set-of-pairs model — for every set whose interval list for the GTID's server id is in canonical form (non-empty intervals, pairwise ordered and disjoint) and every Mysql56GTID, the result is true exactly if some interval of that server id covers the sequence number (loop invariant over the interval list of unbounded length; the map is a symbolic total function from 16-byte ids to slices); interval.contains is interval inclusion. AddGTID never alters the set it was added to: no execution stores into memory that existed before the call (frame obligation at every store and every in-place append, map iteration modelled as 'an arbitrary present key not produced before'), and no index can go out of range. Contains (superset test), one direction: the answer false always comes with a witness — an interval of other (for some server id present in other) that no interval of set for the same server id contains — for canonical sets, three nested loops by invariant (monotone scan index: every interval of set that the scan has passed ends before the end of the interval of other handled last). Equal, both directions: the answer true means the same number of server ids and, for every server id of the receiver, an interval list in other of the same length that agrees at every position (outer invariant over the server ids the map iteration has produced so far, inner invariant over the positions compared; for canonical sets, where no list is empty, that is equality of the sets of pairs); the answer false always comes with a witness — a different number of server ids, or a server id of the receiver whose two lists differ in length or at a position. Not decided: the other direction of Contains (true => every interval of other is covered: the invariant over the server ids already produced and its preservation do not discharge in time — an existential under two nested universals; drafts are kept in the contract file under names the generator ignores), String, and that AddGTID's result is the union in canonical form (functional contracts over Go map iteration with nested interval scans were not written; no bounded stand-in was built).",
+    'claim': "Membership test of MySQL 5.6 GTID sets agrees with the mathematical model for all canonical sets; AddGTID never writes the receiver's memory (frame) and is panic-free; a false answer of Contains always has an uncovered interval as witness; Equal is list-wise equality for every server id (both directions); the true direction of Contains, String and AddGTID's result are not covered.",
     'note': "Trusted: govc (incl. its map model: a map value is a total function with a domain predicate), solvers. The dynamic type of the GTID argument is fixed to Mysql56GTID by the unit (other types return false on the first line of the function).",
     'technique': GEN,
-    'runs': ['gtid-iv-contains', 'gtid-56-containsgtid', 'gtid-56-add', 'gtid-56-contains'],
+    'runs': ['gtid-iv-contains', 'gtid-56-containsgtid', 'gtid-56-add', 'gtid-56-contains', 'gtid-56-equal'],
     'assumptions': ["the GTID / GTIDSet argument has dynamic type Mysql56GTID / Mysql56GTIDSet (unit parameter -ifacetag; any other dynamic type returns on the first lines)", "a Go map is iterated in some order, each key present at the start exactly once (the functions do not insert into or delete from the map they iterate)"],
 }
 props['C19'] = {
